@@ -28,12 +28,12 @@ class C10(Prop):
     model_targets = ["theories/Sessions/SessionsCheck.vo"]
     technique = "Coq invariant proof of session isolation for every request history and cache limit, parametric in the cookie jar (a jar is the list of operations applied to it) + regenerated source fact + differential run of the real SessionHandler, with the cookies of each modelled session evaluated on an independent net/http/cookiejar; concurrent run under the race detector"
     level_text = ("C10_isolation proves for every history of requests over any number of sessions and every cache limit that the cookies restored into a request come only from Set-Cookie operations performed in the session whose cookie it presents, and that a request without session cookie "
-                  "gets nothing restored - independently of what a cookie jar does with the operations; C10_session_cookie proves that the session cookie is issued exactly to clients presenting none. The real handler is run on generated histories (sessions x hosts x paths; set / overwrite / delete / expire, "
+                  "gets nothing restored - independently of what a cookie jar does with the operations; C10_session_cookie proves that the session cookie is issued exactly to clients presenting none; C10_window_complete proves completeness inside the window: for every cache limit and every history in which clients present only issued session cookies, as long as a session has always been among the K most recently used ones since it first appeared, a request presenting it is given exactly the operations of all earlier requests of that session, in order (C10_outside_window_cookies_lost shows the bound is sharp). The real handler is run on generated histories (sessions x hosts x paths; set / overwrite / delete / expire, "
                   "Path- and Domain-scoped, Secure, HttpOnly cookies; client extra cookies; cache limits 1, 2, 3, 1000); the model says which operations belong to the consulted jar, an independent cookiejar says what they amount to, and the backend must have seen exactly the client's other cookies followed by those. "
                   "Client-visible Set-Cookie must be the session cookie only (HttpOnly, Path=/, Secure unless the test override). Concurrent requests in the same and different sessions run under -race.")
     level_note = ("Trusted: Coq kernel, srcfacts (no cache entry for the empty session ID), harness, harness/cmd/jareval (independent cookiejar evaluation), race detector. Modelled, not verified: groupcache/lru (recency list with bound), net/http/cookiejar (abstract), uuid freshness (counter). "
                   "PARTIAL: crash-freedom under concurrency is decided by the race detector run, not by a theorem; completeness within the window (nothing of the session is lost while it stays among the K most recent) is compared on every run via the executable model, not proved.")
-    partial_note = "concurrency (no crash, no mixing under concurrent requests) is checked by the -race run; window completeness by the executable model"
+    partial_note = "concurrency (no crash, no mixing under concurrent requests) is outside the sequential model and is decided by the -race run; the cookie jar itself is an abstract parameter evaluated by an independent net/http/cookiejar"
     assumptions = ["a cookie jar's content is a function of the sequence of SetCookies operations applied to it", "session IDs (uuid) are fresh"]
 
     def harness(self, ctx):
